@@ -19,11 +19,14 @@ import (
 	"fmt"
 	"net"
 	"os"
+	"runtime"
 	"strconv"
 	"strings"
 	"sync"
+	"sync/atomic"
 	"testing"
 	"time"
+	"unsafe"
 )
 
 var (
@@ -137,6 +140,8 @@ type vf5Run struct {
 	f    *FSM
 	mock bool
 	s    *vf5Stream
+	last *time.Timer   // f.timer as last seen
+	old  []*time.Timer // timer objects the automaton has dropped
 }
 
 func (r *vf5Run) callbacks() Callbacks {
@@ -177,13 +182,153 @@ type vf5Op struct {
 	cls   string
 	data  []byte
 	isReq bool
+	timer *time.Timer // kind F: the timer that was pending when the op was resolved
+}
+
+// ---- goroutine probes (no wall-clock heuristics): is goroutine <id> parked on a mutex?
+func vf5GoID() string {
+	b := make([]byte, 64)
+	b = b[:runtime.Stack(b, false)] // "goroutine 123 [running]:"
+	f := strings.Fields(string(b))
+	if len(f) < 2 {
+		return "?"
+	}
+	return f[1]
+}
+
+func vf5Stacks() []string {
+	buf := make([]byte, 4<<20)
+	n := runtime.Stack(buf, true)
+	return strings.Split(string(buf[:n]), "\n\n")
+}
+
+func vf5OnMutex(hdr string) bool {
+	return strings.Contains(hdr, "sync.Mutex.Lock") || strings.Contains(hdr, "semacquire")
+}
+
+// goroutine id is blocked acquiring a mutex
+func vf5Blocked(id string) bool {
+	for _, g := range vf5Stacks() {
+		if strings.HasPrefix(g, "goroutine "+id+" [") {
+			hdr := g
+			if i := strings.Index(g, "\n"); i >= 0 {
+				hdr = g[:i]
+			}
+			return vf5OnMutex(hdr)
+		}
+	}
+	return false
+}
+
+// Number of goroutines queued on a sync.Mutex: the waiter count kept in the mutex state word
+// (state >> mutexWaiterShift, first word of sync.Mutex in the pinned toolchain go1.24; checked against a
+// goroutine-dump probe by vf5SelfTest before any case runs).  A goroutine is counted from the moment it
+// enters the slow path of Lock until it owns the mutex.
+func vf5Waiters(m *sync.Mutex) int {
+	return int(atomic.LoadInt32((*int32)(unsafe.Pointer(m))) >> 3)
+}
+
+// The restart timer's production callback (the closure given to time.AfterFunc in startTimer) must take
+// f.mu.  While the harness (or a parked event) holds f.mu and nothing else is using this automaton, a
+// waiter on f.mu is that callback.  No identifier of fsm.go is named.
+func vf5CallbackWaiting(f *FSM) bool { return vf5Waiters(&f.mu) > 0 }
+
+// the same fact read from a goroutine dump (used by the self-test only)
+func vf5WaitingByDump(m *sync.Mutex) bool {
+	needle := fmt.Sprintf("lockSlow(%p", m)
+	for _, g := range vf5Stacks() {
+		if strings.Contains(g, needle) {
+			return true
+		}
+	}
+	return false
+}
+
+// the waiter-count probe and the dump probe must agree on a plain mutex, before and after a waiter queues
+func vf5SelfTest() string {
+	var m sync.Mutex
+	m.Lock()
+	if vf5Waiters(&m) != 0 || vf5WaitingByDump(&m) {
+		return "probe: waiter seen on an uncontended mutex"
+	}
+	done := make(chan struct{})
+	go func() { m.Lock(); m.Unlock(); close(done) }()
+	if !vf5Until(func() bool { return vf5WaitingByDump(&m) }, 10*time.Second) {
+		return "probe: dump never shows the waiter"
+	}
+	if !vf5Until(func() bool { return vf5Waiters(&m) == 1 }, 10*time.Second) {
+		return "probe: waiter count is not 1"
+	}
+	m.Unlock()
+	<-done
+	if atomic.LoadInt32((*int32)(unsafe.Pointer(&m))) != 0 {
+		return "probe: mutex state word not back to 0"
+	}
+	return ""
+}
+
+// fireNow makes the real time.Timer t run its production callback now and waits, by handshake, until
+// the callback has finished: the harness holds f.mu (so the callback must take the slow path), re-arms t
+// with period 0, waits until the callback goroutine is observed in lockSlow(&f.mu), releases the mutex,
+// waits until that goroutine has left lockSlow (it owns the mutex now) and then takes the mutex once
+// itself (see callbackDone).
+func (r *vf5Run) fireNow(t *time.Timer) bool {
+	f := r.f
+	f.mu.Lock()
+	t.Reset(0)
+	ok := vf5Until(func() bool { return vf5CallbackWaiting(f) }, 10*time.Second)
+	f.mu.Unlock()
+	if !ok {
+		return false
+	}
+	return r.callbackDone()
+}
+
+// After the holder of f.mu has released it with the callback queued, the mutex state word is non-zero
+// (woken / starving flag, then locked by the callback) until the callback has released the mutex again:
+// state == 0 means the callback has run to its end.  The harness must not touch f.mu before that (it
+// could overtake the woken callback).
+func (r *vf5Run) callbackDone() bool {
+	m := &r.f.mu
+	return vf5Until(func() bool { return atomic.LoadInt32((*int32)(unsafe.Pointer(m))) == 0 }, 10*time.Second)
+}
+
+// remember time.Timer objects that the automaton has dropped (stopped, restarted or consumed): their
+// closures carry superseded generations
+func (r *vf5Run) track() {
+	r.f.mu.Lock()
+	t := r.f.timer
+	r.f.mu.Unlock()
+	if t != r.last {
+		if r.last != nil {
+			r.old = append(r.old, r.last)
+		}
+		r.last = t
+	}
+}
+
+// wait (bounded) until cond holds; no fixed sleeps decide the outcome
+func vf5Until(cond func() bool, max time.Duration) bool {
+	deadline := time.Now().Add(max)
+	for !cond() {
+		if time.Now().After(deadline) {
+			return false
+		}
+		time.Sleep(100 * time.Microsecond)
+	}
+	return true
 }
 
 // parse an op token; identifiers c/s/p are resolved against lastReqID now
 func (r *vf5Run) resolve(op string) (vf5Op, bool) {
 	switch op {
-	case "U", "D", "O", "C", "T", "R", "K":
+	case "U", "D", "O", "C", "T", "R", "K", "X", "Y":
 		return vf5Op{kind: op}, true
+	case "F":
+		r.f.mu.Lock()
+		t := r.f.timer
+		r.f.mu.Unlock()
+		return vf5Op{kind: op, timer: t}, true
 	}
 	if len(op) < 2 || op[0] != 'I' {
 		return vf5Op{}, false
@@ -233,14 +378,25 @@ func (r *vf5Run) apply(o vf5Op) {
 	case "C":
 		f.Close()
 	case "T":
-		// the restart timer expires: only a pending timer can; it is consumed and Timeout() runs
+		// the restart timer expires NOW: the pending real timer (armed for 10 h) is made to fire, i.e.
+		// the production callback closure of startTimer runs with the generation it captured.  Without
+		// a pending timer there is nothing that could fire.
 		f.mu.Lock()
-		pending := f.timer != nil
-		f.stopTimer()
+		t := f.timer
 		f.mu.Unlock()
-		if pending {
-			f.Timeout()
+		if t != nil && !r.fireNow(t) {
+			r.s.add("HANG-timer-callback", false)
 		}
+	case "X":
+		// a superseded timer's late fire: the most recent timer object the automaton has stopped,
+		// restarted or consumed is made to fire; its closure carries an old generation
+		if n := len(r.old); n > 0 {
+			if !r.fireNow(r.old[n-1]) {
+				r.s.add("HANG-timer-callback", false)
+			}
+		}
+	case "Y":
+		f.Timeout() // the exported entry point (no production caller): unguarded
 	case "R":
 		f.Restore()
 	case "K":
@@ -280,6 +436,7 @@ func (r *vf5Run) seqStep(op string) (string, bool) {
 	s.acts, s.calls, s.cls = nil, nil, ""
 	s.mu.Unlock()
 	r.apply(o)
+	r.track()
 	s.mu.Lock()
 	acts, calls, cls := s.acts, s.calls, s.cls
 	s.mu.Unlock()
@@ -295,81 +452,6 @@ func (r *vf5Run) seqStep(op string) (string, bool) {
 	return r.obs() + ":" + vf5Join(acts) + ":" + vf5Join(calls), true
 }
 
-// Kind "late": a REAL restart timer.  After the prefix the pending timer (if any) is re-armed with
-// a short period; event A runs with a gate in its first callback and stays parked until the timer has
-// fired, so that the timer's callback is waiting for the FSM mutex while A stops or restarts the
-// timer.  The RFC automaton has no timeout event for a stopped timer: the late fire must be ignored;
-// a timer that A left pending fires normally.  Printed: prefix steps, then one combined step.
-const (
-	vf5LatePeriod = 40 * time.Millisecond
-	vf5LateWait   = 110 * time.Millisecond
-)
-
-func (r *vf5Run) lateCase(prefix []string, gate, opA string) string {
-	var out []string
-	for _, op := range prefix {
-		s, ok := r.seqStep(op)
-		if !ok {
-			return "badcase"
-		}
-		out = append(out, s)
-	}
-	a, ok := r.resolve(opA)
-	if !ok {
-		return "badcase"
-	}
-	f, s := r.f, r.s
-	f.mu.Lock()
-	if f.timer != nil {
-		f.restartTime = vf5LatePeriod
-		f.startTimer()
-		f.restartTime = 10 * time.Hour
-	}
-	f.mu.Unlock()
-	s.mu.Lock()
-	s.acts, s.calls, s.cls = nil, nil, ""
-	s.gate, s.parked, s.release = gate, make(chan struct{}), make(chan struct{})
-	parked, release := s.parked, s.release
-	s.mu.Unlock()
-	doneA := make(chan struct{})
-	go func() { defer close(doneA); r.apply(a) }()
-	ov := "ov=0"
-	select {
-	case <-parked:
-		ov = "ov=1"
-		time.Sleep(vf5LateWait) // the timer fires; its callback now waits for f.mu
-		close(release)
-		select {
-		case <-doneA:
-		case <-time.After(10 * time.Second):
-			return "hang"
-		}
-		time.Sleep(30 * time.Millisecond) // the late callback runs
-	case <-doneA:
-		s.mu.Lock()
-		s.gate = ""
-		s.mu.Unlock()
-		time.Sleep(vf5LateWait) // a timer that is still pending fires
-	case <-time.After(10 * time.Second):
-		return "hang"
-	}
-	s.mu.Lock()
-	acts, calls := s.acts, s.calls
-	s.mu.Unlock()
-	// "armed" here = a timer is really pending: a time.Timer that has fired and was left in f.timer is
-	// not (Stop reports whether it stopped a pending timer; the case ends here, so stopping is harmless)
-	st := f.State()
-	f.mu.Lock()
-	armed := 0
-	if f.timer != nil && f.timer.Stop() {
-		armed = 1
-	}
-	o := fmt.Sprintf("%d/%d/%d/%d/%d/%d", st, f.restartCount, armed, f.lastReqID, f.id, f.failCount)
-	f.mu.Unlock()
-	out = append(out, o+":"+vf5Join(acts)+":"+vf5Join(calls), ov)
-	return strings.Join(out, " ")
-}
-
 func vf5Case(line string) (res string) {
 	defer func() {
 		if e := recover(); e != nil {
@@ -383,7 +465,7 @@ func vf5Case(line string) (res string) {
 	r := &vf5Run{s: &vf5Stream{}}
 	var inner OptionHandler
 	switch tk[0] {
-	case "fsm", "conc", "late":
+	case "fsm", "conc":
 		r.mock = true
 		inner = &vf5Mock{}
 		r.f = NewFSM(ProtoLCP, r.callbacks(), nil)
@@ -426,18 +508,6 @@ func vf5Case(line string) (res string) {
 	ops := tk[3:]
 	var out []string
 	var pair []string
-	if tk[0] == "late" {
-		k := -1
-		for i, o := range ops {
-			if o == "/" {
-				k = i
-			}
-		}
-		if k < 0 || len(ops)-k != 3 {
-			return "badcase"
-		}
-		return r.lateCase(ops[:k], ops[k+1], ops[k+2])
-	}
 	if tk[0] == "conc" {
 		k := -1
 		for i, o := range ops {
@@ -475,22 +545,62 @@ func vf5Case(line string) (res string) {
 		s.mu.Unlock()
 		doneA, doneB := make(chan struct{}), make(chan struct{})
 		ov := "ov=0"
+		lockFree, hung := false, false
 		go func() { defer close(doneA); r.apply(a) }()
 		select {
 		case <-parked:
 			// A is inside a callback: inject B from a second goroutine
 			ov = "ov=1"
-			go func() { defer close(doneB); r.apply(b) }()
-			select {
-			case <-doneB: // B ran to completion inside A's callback
-			case <-time.After(3 * time.Millisecond): // B is waiting for A
+			// direct probe: while A is inside a callback the FSM mutex must be held
+			if f.mu.TryLock() {
+				f.mu.Unlock()
+				lockFree = true
 			}
-			close(release)
+			if b.kind == "F" {
+				// B = the timer that was pending before A fires now: its production callback must
+				// be seen waiting for the mutex before the gate opens
+				if b.timer != nil {
+					b.timer.Reset(0)
+					if !vf5Until(func() bool { return vf5CallbackWaiting(f) }, 2*time.Second) {
+						hung = true
+					}
+				}
+				close(release)
+				<-doneA
+				if b.timer != nil && !r.callbackDone() {
+					hung = true
+				}
+				close(doneB)
+			} else {
+				go func() { defer close(doneB); r.apply(b) }()
+				// handshake, not a timeout: go on only when B has either run to completion (inside
+				// A's callback - events are not atomic) or is queued on the FSM mutex (waiting for A)
+				if !vf5Until(func() bool {
+					select {
+					case <-doneB:
+						return true
+					default:
+					}
+					return vf5Waiters(&f.mu) > 0
+				}, 10*time.Second) {
+					hung = true
+				}
+				close(release)
+			}
 		case <-doneA:
 			s.mu.Lock()
 			s.gate = ""
 			s.mu.Unlock()
-			go func() { defer close(doneB); r.apply(b) }()
+			go func() {
+				defer close(doneB)
+				if b.kind == "F" {
+					if b.timer != nil && !r.fireNow(b.timer) {
+						r.s.add("HANG-timer-callback", false)
+					}
+					return
+				}
+				r.apply(b)
+			}()
 		case <-time.After(10 * time.Second):
 			return "hang"
 		}
@@ -540,6 +650,13 @@ func vf5Case(line string) (res string) {
 			}
 		}
 		out = append(out, ov, alt, term)
+		if lockFree {
+			out = append(out, "lock=FREE") // the FSM mutex was not held inside a callback
+		}
+		if hung {
+			out = append(out, "HANG")
+		}
+		r.track()
 	}
 	if len(out) == 0 {
 		return "empty"
@@ -549,7 +666,10 @@ func vf5Case(line string) (res string) {
 
 func vf5Guarded(line string) string {
 	ch := make(chan string, 1)
-	go func() { ch <- vf5Case(line) }()
+	go func() {
+		res := vf5Case(line)
+		ch <- res
+	}()
 	select {
 	case res := <-ch:
 		return res
@@ -576,6 +696,9 @@ func TestVerifC05(t *testing.T) {
 	var lines []string
 	for sc.Scan() {
 		lines = append(lines, sc.Text())
+	}
+	if msg := vf5SelfTest(); msg != "" {
+		t.Fatal(msg)
 	}
 	// every case has its own FSM; cases run on a small worker pool (the waiting of the conc / late
 	// kinds overlaps), results are written in input order
